@@ -15,7 +15,7 @@ TRUSTED_BASE = [
     'ocaml/driver.ml (s-expression reader, comparison of projections) and harness/cmd/vh (Go generators, canonical printer)',
 ]
 
-_AGG_RULE = ('hand-built snapshots: 1..80 goroutines (thorough: up to 2000) around 1..3 base signatures, variants differing in '
+_AGG_RULE = ('op aggx: bounded-exhaustive - every sequence (every multiset in every arrival order) of 1..4 goroutines over a universe of 10 signature variants differing in exactly one attribute class each, at all four levels (quick: 600 sampled, thorough: all 44 440); op aggregate: hand-built snapshots: 1..80 goroutines (thorough: up to 2000) around 1..3 base signatures, variants differing in '
              'argument values/pointers/too-large/inaccurate/nesting, lock, sleep, state, line, elision, symbol; random level; '
              'each aggregated 8x in-process; non-trivial = at least two buckets or at least one merged bucket; distinct by input hash')
 
@@ -25,7 +25,7 @@ _SCAN_RULE = ('stack.ScanSnapshot under a scripted io.Reader (chunk schedule inc
 PROPS = {
     'C04': {
         'extra_props': ['C00_pipeline'],
-        'ops': [('aggregate', 1500, 40000)],
+        'ops': [('aggregate', 1500, 40000), ('aggx', 600, 44440, (), 'exact')],
         'corr': ['corr:ids', 'corr:panic'],
         'prop': ['C04'],
         'nontrivial': ['multi', 'merged'],
@@ -35,7 +35,7 @@ PROPS = {
     },
     'C05': {
         'extra_props': ['C00_pipeline'],
-        'ops': [('aggregate', 1500, 40000), ('sigops', 800, 40000)],
+        'ops': [('aggregate', 1500, 40000), ('sigops', 800, 40000), ('aggx', 600, 44440, (), 'exact')],
         'corr': ['corr:ids', 'corr:panic', 'corr:sig-similar', 'corr:sig-equal'],
         'prop': ['C05', 'C06:aggregate'],
         'nontrivial': ['multi', 'merged'],
@@ -45,7 +45,7 @@ PROPS = {
     },
     'C12': {
         'extra_props': ['C00_pipeline'],
-        'ops': [('aggregate', 1500, 40000), ('sigops', 800, 40000)],
+        'ops': [('aggregate', 1500, 40000), ('sigops', 800, 40000), ('aggx', 600, 44440, (), 'exact')],
         'corr': ['corr:sig', 'corr:panic', 'corr:sig-merge'],
         'prop': ['C12'],
         'nontrivial': ['merged'],
@@ -139,7 +139,7 @@ PROPS = {
     },
     'C07': {
         'extra_props': ['C07c'],
-        'ops': [('scanseq', 200, 10000), ('scan', 200, 5000, ('-mix', 'c02')), ('pppipe', 10, 120), ('scan', 2200, 25259, ('-mix', 'kinds')), ('step', 600, 30000), ('pp', 40, 2000)],
+        'ops': [('scanseq', 200, 10000), ('scan', 200, 5000, ('-mix', 'c02')), ('pppipe', 10, 120), ('scan', 2200, 25259, ('-mix', 'kinds'), 'exact'), ('step', 600, 30000), ('pp', 40, 2000)],
         'corr': ['corr:seq', 'corr:seqrest', 'corr:panic', 'corr:snap', 'corr:rest', 'corr:pp:pipe', 'corr:pp-exit:pipe', 'corr:pp:plain', 'corr:pp-exit:plain', 'corr:step-trace', 'corr:step-sessions', 'corr:step-goroutines'],
         'prop': ['C07', 'C02:region', 'C02:pp', 'C11:pp'],
         'nontrivial': ['dumps=', 'kind=', 'sessions='],
